@@ -322,6 +322,44 @@ func c19(raw json.RawMessage, resp *drv.Response) error {
 				resp.Sample(map[string]any{"leaf": dl.path, "malformed": string(vb), "refused_at": stage})
 			}
 		}
+		// two documents that differ in one verified field give different assignments - also when the second is read after the first in
+		// the same process (a reader that remembers anything about an earlier document would return the earlier value)
+		for c := 0; c < 3 && len(leaves) > 0; c++ {
+			dl := leaves[rng.Intn(len(leaves))]
+			old, _ := new(big.Int).SetString(dl.val, 10)
+			nv := new(big.Int).Add(old, one)
+			var jv any = nv.String()
+			if dl.ty == "u64" {
+				nv.Mod(nv, two64)
+				jv = json.Number(nv.String())
+			} else {
+				nv.Mod(nv, bigR)
+				jv = nv.String()
+			}
+			var doc2 map[string]any
+			bb, _ := json.Marshal(doc)
+			dec := json.NewDecoder(strings.NewReader(string(bb)))
+			dec.UseNumber()
+			dec.Decode(&doc2)
+			if !setAt(doc2, dl.path, jv) {
+				return fmt.Errorf("cannot set %s", dl.path)
+			}
+			p2path := fmt.Sprintf("%s-diff.json", tmp)
+			writeJSON(p2path, doc2)
+			resp.Count(fmt.Sprintf("differ/%s/%s", dl.path, nv), false)
+			p2, refused := readProof(p2path)
+			if refused != "" {
+				resp.Violate("c19/faithful/refused-wellformed", "a well-formed document is refused: "+refused, nil)
+				continue
+			}
+			ap, _, _ := mapPath(rules.Proof, dl.path)
+			for _, lf := range data.Walk(&p2) {
+				if lf.Path == ap && lf.Get().String() != nv.String() {
+					resp.Violate("c19/differ/same-assignment class="+classOf(ap), fmt.Sprintf("a second document differing from the previous one only in %s (%s -> %s) is read with %s at %s", dl.path, dl.val, nv, lf.Get(), ap), map[string]any{"leaf": dl.path})
+				}
+			}
+			os.Remove(p2path)
+		}
 		os.Remove(path)
 	}
 	// scalars where lists are expected
@@ -363,6 +401,61 @@ func c19(raw json.RawMessage, resp *drv.Response) error {
 		}
 		if len(want) != 0 {
 			resp.Violate("c19/faithful/count", fmt.Sprintf("verifier data leaves missing: %v", want), nil)
+		}
+	}
+	// verifier keys read one after the other that share the digest (or the commitment) and differ elsewhere
+	for d := 0; d < 4; d++ {
+		mk := func() ([]any, []string) {
+			caps, ss := make([]any, 16), make([]string, 16)
+			for i := range caps {
+				ss[i] = drv.RandBelow(rng, bigR).String()
+				caps[i] = ss[i]
+			}
+			return caps, ss
+		}
+		capsA, _ := mk()
+		capsB, sB := mk()
+		dgA, dgB := drv.RandBelow(rng, bigR).String(), drv.RandBelow(rng, bigR).String()
+		type kd struct {
+			caps []any
+			want []string
+			dg   string
+		}
+		_, sA := capsA, func() []string {
+			o := make([]string, 16)
+			for i := range o {
+				o[i] = capsA[i].(string)
+			}
+			return o
+		}()
+		seq := []kd{{capsA, sA, dgA}, {capsB, sB, dgA}, {capsB, sB, dgB}, {capsA, sA, dgB}}
+		if d%2 == 1 { // one entry changed only
+			one16 := append([]any{}, capsA...)
+			w := append([]string{}, sA...)
+			j := rng.Intn(16)
+			w[j] = drv.RandBelow(rng, bigR).String()
+			one16[j] = w[j]
+			seq = []kd{{capsA, sA, dgA}, {one16, w, dgA}}
+		}
+		for si, k := range seq {
+			writeJSON(vdPath, map[string]any{"constants_sigmas_cap": k.caps, "circuit_digest": k.dg})
+			vd, refused := readVD(vdPath)
+			resp.Count(fmt.Sprintf("vdseq/%d/%d/%s", d, si, k.dg), false)
+			if refused != "" {
+				resp.Violate("c19/faithful/refused-wellformed", "verifier data refused: "+refused, nil)
+				continue
+			}
+			for _, lf := range data.Walk(&vd) {
+				want := k.dg
+				var i int
+				if n, _ := fmt.Sscanf(lf.Path, "ConstantSigmasCap[%d]", &i); n == 1 {
+					want = k.want[i]
+				}
+				if lf.Get().String() != want {
+					resp.Violate("c19/differ/same-assignment class=VD", fmt.Sprintf("verifier key %d of a sequence read in one process (same digest or same commitment as an earlier key, different elsewhere): leaf %s is %s, the document says %s", si, lf.Path, lf.Get(), want), nil)
+					break
+				}
+			}
 		}
 	}
 	for _, v := range []any{"abc", "0x1f", "", json.Number("7")} {
